@@ -272,6 +272,13 @@ class Gen:
                 for _ in range(r.randint(2, 3)):
                     out.append(pad + "  - " + self.text_line(temps, allow_glue=False))
                 out.append(pad + "}")
+            elif c < 0.9 and self.w["msgs"] and ind == 0 and not in_function and r.random() < 0.5 * self.w["msgs"]:
+                # a warning: a temporary read although its declaration was never executed
+                self.wt_n = getattr(self, "wt_n", 0) + 1
+                out.append(pad + "{ false:")
+                out.append(pad + "  ~ temp wt%d = 0" % self.wt_n)
+                out.append(pad + "}")
+                out.append(pad + "%s {wt%d} %s" % (self.word(), self.wt_n, self.word()))
             elif c < 0.86 and self.w["retype"] and r.random() < self.w["retype"] and not in_function:
                 # a value of another type that is numerically equal: int <-> float <-> bool
                 k = r.random()
@@ -326,7 +333,15 @@ class Gen:
             out += body
             if depth > 1 and level < 2 and r.random() < 0.3:
                 out += self.choice_block(level + 1, depth - 1, temps, knot, knot_index, targets)
-            if r.random() < 0.35 and targets:
+            if self.w["msgs"] and r.random() < 0.25 * self.w["msgs"]:
+                if r.random() < 0.5:
+                    out.append("  " * level + "~ dv = 0")
+                    out.append("  " * level + self.word())
+                    out.append("  " * level + "-> dv")
+                else:
+                    out.append("  " * level + self.word())
+                    out.append("  " * level + "->->")
+            elif r.random() < 0.35 and targets:
                 out.append("  " * level + "-> " + r.choice(targets))
         if self.p("fallback") and r.random() < 0.5:
             sticky = r.random() < 0.5
@@ -370,6 +385,8 @@ class Gen:
             L.append("LIST %s = %s" % (name, ", ".join(("(%s = %d)" if it in on else "%s = %d") % it for it in items)))
         if w["hostvar"]:
             L.append("VAR hostvar = 0")
+        if w["msgs"]:
+            L.append("VAR dv = -> k0")
         for v in self.ints:
             L.append("VAR %s = %d" % (v, r.randint(0, 5)))
         for v in self.bools:
